@@ -141,7 +141,7 @@ void parallel_for_dynamicMultiGroupImpl(
     if (gIdx >= effectiveGroups) {
       gIdx = effectiveGroups - 1;
     }
-    worker(*it, gIdx);
+    detail::runCallerShare(taskSet, [&]() { worker(*it, gIdx); });
     taskSet.wait();
   }
 }
@@ -235,7 +235,7 @@ void parallel_for_dynamicImpl(
   if (wait) {
     auto it = states.begin();
     std::advance(it, static_cast<ptrdiff_t>(numToLaunch));
-    worker(*it);
+    detail::runCallerShare(taskSet, [&]() { worker(*it); });
     taskSet.wait();
   }
 }
